@@ -448,10 +448,10 @@ async fn apply_pre(root: &AsyncVfsPath, pre: &[Pre]) -> Result<(), String> {
     for e in pre {
         let p = root.join(&e.path[1..]).map_err(|x| x.to_string())?;
         match &e.file {
-            None => p.create_dir_all().await.map_err(|x| format!("pre {}: {}", e.path, x))?,
+            None => p.create_dir_all().await.map_err(|x| format!("LIBRARY-BUILD-ERROR pre {}: {}", e.path, x))?,
             Some(pl) => {
-                p.parent().create_dir_all().await.map_err(|x| format!("pre {}: {}", e.path, x))?;
-                let mut f = p.create_file().await.map_err(|x| format!("pre {}: {}", e.path, x))?;
+                p.parent().create_dir_all().await.map_err(|x| format!("LIBRARY-BUILD-ERROR pre {}: {}", e.path, x))?;
+                let mut f = p.create_file().await.map_err(|x| format!("LIBRARY-BUILD-ERROR pre {}: {}", e.path, x))?;
                 f.write_all(&pl.bytes()).await.map_err(|x| x.to_string())?;
                 f.flush().await.map_err(|x| x.to_string())?;
             }
@@ -490,7 +490,7 @@ fn abuild_rec<'a>(spec: &'a Spec, ctl: &'a Arc<ACtl>, next_id: &'a mut u16, base
             Spec::Alt { inner, p } => {
                 let ir = abuild_rec(inner, ctl, next_id, base).await?;
                 let sub = if p.is_empty() { ir.clone() } else { ir.join(&p[1..]).map_err(|e| e.to_string())? };
-                sub.create_dir_all().await.map_err(|e| format!("altroot dir: {}", e))?;
+                sub.create_dir_all().await.map_err(|e| format!("LIBRARY-BUILD-ERROR altroot dir: {}", e))?;
                 Ok(AsyncVfsPath::new(PendFS { inner: Box::new(AsyncAltrootFS::new(sub)), node: id, ctl: ctl.clone() }))
             }
             Spec::Ovl { layers } => {
@@ -505,7 +505,7 @@ fn abuild_rec<'a>(spec: &'a Spec, ctl: &'a Arc<ACtl>, next_id: &'a mut u16, base
                 let mut ls = vec![];
                 for d in dirs {
                     let sub = br.join(&d[1..]).map_err(|e| e.to_string())?;
-                    sub.create_dir_all().await.map_err(|e| format!("layer dir: {}", e))?;
+                    sub.create_dir_all().await.map_err(|e| format!("LIBRARY-BUILD-ERROR layer dir: {}", e))?;
                     ls.push(sub);
                 }
                 Ok(AsyncVfsPath::new(PendFS { inner: Box::new(AsyncOverlayFS::new(&ls)), node: id, ctl: ctl.clone() }))
